@@ -19,6 +19,8 @@
 package pe
 
 import (
+	ssi "github.com/nuts-foundation/go-did"
+	"github.com/nuts-foundation/go-did/vc"
 	"github.com/stretchr/testify/assert"
 	"github.com/stretchr/testify/require"
 	"testing"
@@ -35,6 +37,22 @@ func Test_match(t *testing.T) {
 		_, err := submissionRequirement.match(availableGroups)
 		require.Error(t, err)
 		assert.EqualError(t, err, "submission requirement (test) contains both 'from' and 'from_nested'")
+	})
+}
+
+func Test_apply(t *testing.T) {
+	id := ssi.MustParseURI("did:example:123#vc")
+	list := []selectableVC{selectableVC(vc.VerifiableCredential{ID: &id}), selectableVC(vc.VerifiableCredential{})}
+	t.Run("pick with only min (max is optional)", func(t *testing.T) {
+		minimum := 1
+		vcs, err := apply(list, SubmissionRequirement{Rule: "pick", Min: &minimum})
+		require.NoError(t, err)
+		assert.Len(t, vcs, 1)
+	})
+	t.Run("pick without count, min and max", func(t *testing.T) {
+		vcs, err := apply(list, SubmissionRequirement{Rule: "pick"})
+		require.NoError(t, err)
+		assert.Len(t, vcs, 1)
 	})
 }
 
